@@ -28,6 +28,11 @@ mod c09 {
     include!(concat!(env!("XOOLIVE_RS1090_VERIF_DIR"), "/c09.rs"));
 }
 
+#[allow(dead_code)]
+mod c06 {
+    include!(concat!(env!("XOOLIVE_RS1090_VERIF_DIR"), "/c06.rs"));
+}
+
 fn dispatch<S: batch::Scenario>(sc: &S, cmd: &str, env: &batch::Env) -> i32 {
     match cmd {
         "check" => batch::run_check(sc, env).exit_code,
@@ -59,6 +64,7 @@ fn verif_entry() {
     let prop = std::env::var("VERIF_PROP").unwrap_or_default();
     let env = batch::Env::from_env();
     let code = match prop.as_str() {
+        "C06" => dispatch(&c06::C06, &cmd, &env),
         "C09" => dispatch(&c09::C09, &cmd, &env),
         "C10" => dispatch(&c10::C10, &cmd, &env),
         _ => {
